@@ -25,7 +25,7 @@ MANIFEST = {
                  "C19_rwlock_unlimited_readers_branch", "C19_rlock_only_holder_reenters", "C19_rlock_balanced_unlocks",
                  "C19_prioritylock_exclusive", "C19_prioritylock_queue_head_is_max",
                  "C19_prioritylock_handover_newcomer_window",
-                 "C19_event_wait_admission", "C19_event_wait_wake_pass",
+                 "C19_event_wait_acceptance", "C19_event_wait_wake_pass",
                  "C19_waited_flag_covers_live_waiters", "C19_release_serves_queue_head", "C19_lock_handover_after_timeout",
                  "C19_semaphore_handover_after_timeout", "C19_prioritylock_handover_after_timeout",
                  "C19_event_set_releases_all_after_timeout", "C19_event_clearmode_wait_timeout_serves_other_waits",
